@@ -32,7 +32,7 @@ ASSUMPTIONS_BATCHER = [
     "the consumer polling an empty main queue while every other thread is finished or blocked is quiescence: nothing can ever wake a blocked caller any more",
 ]
 
-CONSUMER_POINTS = {"_checkpoint_queue.get", "_checkpoint_queue.get_nowait", "_checkpoint_queue.empty", "completion_event.set",
+CONSUMER_POINTS = {"_checkpoint_queue.get", "_checkpoint_queue.get_nowait", "_overflow_queue.get_nowait", "get_nowait", "_checkpoint_queue.empty", "completion_event.set",
                    "_checkpointing_failed.set", "_service_client.checkpoint", "fetch_paginated_operations"}
 PRODUCER_POINTS = {"_checkpointing_failed.is_set", "_checkpoint_queue.put"}
 FETCH_POINTS = {"_service_client.get_execution_state", "operations.update"}
@@ -71,7 +71,7 @@ def install():
     _lowered["consumer"] = colower.lower_method(ExecutionState, "checkpoint_batches_forever", CONSUMER_POINTS,
                                                 sub={"_collect_checkpoint_batch", "fetch_paginated_operations"})
     _lowered["producer"] = colower.lower_method(ExecutionState, "create_checkpoint", PRODUCER_POINTS)
-    assert _lowered["collect"] >= 2 and _lowered["consumer"] >= 6 and _lowered["producer"] >= 3, _lowered
+    assert _lowered["collect"] >= 2 and _lowered["consumer"] >= 3 and _lowered["producer"] >= 3, _lowered   # vacuity guard: the API call, the wake-ups and the hand-over are preemption points
     ExecutionState._orig_calculate_operation_size = ExecutionState.__dict__['_calculate_operation_size']   # the unmodified staticmethod
     ExecutionState._calculate_operation_size = staticmethod(lambda q: 0 if q.operation_update is None else q.operation_update.size)
     return _lowered
